@@ -1,4 +1,5 @@
 import SqlgrepModel.Lemmas.ExtractJson
+import SqlgrepModel.Lemmas.JsonDoc
 /-
 C02 — JSON-path extraction yields exactly the addressed JSON value, typed.
 
@@ -200,6 +201,93 @@ theorem regex_columns_unaffected (o : Oracles) (d : TableDef) (lo : LineOracle) 
     simpa using this
   exact (regex_column_same_input o d lo c hj).symm
 
+/-! ### from the bytes of the line
+
+Until `Model/JsonDoc.lean` the statements above started from a JSON tree that the harness shipped
+(`LineOracle.json` = what `serde_json::from_str` answered). `JsonDoc.docOfLine` computes that tree from the bytes of
+the line, so the statements can start from the bytes; "the line parsed as one JSON document" is RFC 8259
+(`Spec/JsonGrammar.lean`) through `parseJson_iff`. -/
+
+/-- the regex side does not look at the JSON tree of the line -/
+theorem buildResults_json (lo : LineOracle) (j : Option Json) (ps : List Pattern) (acc : List (Text × RegexResult)) :
+    buildResults { lo with json := j } ps acc = buildResults lo ps acc := by
+  induction ps generalizing acc with
+  | nil => rfl
+  | cons p ps ih =>
+    unfold buildResults
+    cases p.mode with
+    | captures =>
+      simp only []
+      cases lo.captures p.regex with
+      | none => exact ih acc
+      | some gs => exact ih _
+    | split => exact ih _
+
+/-- the parsing input of a line whose JSON tree is computed from its bytes -/
+theorem input_from_text (d : TableDef) (lo : LineOracle) (hj : d.anyJson = true) :
+    ParsingInput.new d (JsonDoc.withDoc lo) =
+      { regex := (ParsingInput.new d lo).regex, json := (JsonDoc.docOfLine lo.line).getD .null } := by
+  unfold ParsingInput.new JsonDoc.withDoc
+  simp only [hj, if_true]
+  rw [buildResults_json]
+
+/-- **json_column_from_text.** The value of a JSON-path column of a line, from the BYTES of the line: it is `specColumn`
+— the sentence of C02 written as a function — applied to `JsonDoc.docOfLine line`, the Lean computation of
+`serde_json::from_str::<Value>(line)` (`Value::Null` when the line has no document). -/
+theorem json_column_from_text (o : Oracles) (d : TableDef) (lo : LineOracle) (c : Column) (hj : d.anyJson = true) :
+    columnValue o c (ParsingInput.new d (JsonDoc.withDoc lo)) =
+      specColumn o c { regex := (ParsingInput.new d lo).regex, json := (JsonDoc.docOfLine lo.line).getD .null } := by
+  rw [input_from_text d lo hj, columnValue_eq_spec]
+
+/-- … spelled out: DEFAULT iff the path is absent from the document of the line, else the addressed value, typed -/
+theorem json_column_from_text_spec (o : Oracles) (d : TableDef) (lo : LineOracle) (c : Column) (a : JsonAccess)
+    (hj : d.anyJson = true) (hp : c.parsing = .json a) :
+    columnValue o c (ParsingInput.new d (JsonDoc.withDoc lo)) =
+      applyTrim c (match followPath a.steps ((JsonDoc.docOfLine lo.line).getD .null) with
+        | none => c.defaultValue
+        | some v =>
+          if c.options.convert then (match v with | .str s => literal o c.type s | _ => .null)
+          else noCoercion c.type v) := by
+  rw [input_from_text d lo hj, json_column_spec o c _ a hp]
+
+/-- **the document of a line is the RFC 8259 reading of its bytes**: when a JSON column found a value `v` at its path,
+the bytes of the line are the UTF-8 encoding of a `JSON-text` of RFC 8259 (`JsonTextD`, the grammar with denotation of
+`Spec/JsonGrammar.lean`; `parseJson_iff` makes the parser that produced the tree sound and complete for it), the tree
+the path was followed through is serde_json's classification (`JsonDoc.toJson`) of a tree `l` denoting the text's
+value, nested no deeper than serde_json's limit. -/
+theorem json_value_comes_from_rfc8259_text (lo : LineOracle) (a : JsonAccess) (v : Json)
+    (hv : followPath a.steps ((JsonDoc.docOfLine lo.line).getD .null) = some v) :
+    ∃ cs l j, Utf8.decode lo.line = some cs ∧ JsonGrammar.JsonTextD cs l.erase ∧ l.depth ≤ JsonDoc.maxDepth ∧
+      JsonDoc.toJson l = some j ∧ followPath a.steps j = some v := by
+  cases hd : JsonDoc.docOfLine lo.line with
+  | none =>
+    rw [hd] at hv
+    have : followPath a.steps (Option.getD none Json.null) = none := by
+      cases a with
+      | last s => cases s <;> rfl
+      | cons s inner => cases s <;> rfl
+    rw [this] at hv; cases hv
+  | some j =>
+    rw [hd] at hv
+    obtain ⟨cs, l, h1, h2, h3, h4⟩ := JsonDoc.docOfLine_rfc8259 lo.line j hd
+    exact ⟨cs, l, j, h1, h2, h3, h4, hv⟩
+
+/-- a line that is not UTF-8, or whose text is not a `JSON-text` of RFC 8259, gives every JSON column its DEFAULT -/
+theorem not_rfc8259_line_is_default (o : Oracles) (d : TableDef) (lo : LineOracle) (c : Column) (a : JsonAccess)
+    (hj : d.anyJson = true) (hp : c.parsing = .json a)
+    (hn : Utf8.decode lo.line = none ∨ ∃ cs, Utf8.decode lo.line = some cs ∧ ¬ ∃ x, JsonGrammar.JsonTextD cs x) :
+    columnValue o c (ParsingInput.new d (JsonDoc.withDoc lo)) = applyTrim c c.defaultValue := by
+  have hdoc : JsonDoc.docOfLine lo.line = none := by
+    rcases hn with h | ⟨cs, h1, h2⟩
+    · exact JsonDoc.not_utf8_not_json _ h
+    · exact JsonDoc.not_rfc8259_not_json _ cs h1 h2
+  rw [json_column_from_text_spec o d lo c a hj hp, hdoc]
+  have : followPath a.steps (Option.getD none Json.null) = none := by
+    cases a with
+    | last s => cases s <;> rfl
+    | cons s inner => cases s <;> rfl
+  rw [this]
+
 /-! ### non-vacuity -/
 
 /-- `{"a": {"b": [10, "x"]}, "n": 18446744073709551616}` as serde_json presents it -/
@@ -224,5 +312,17 @@ def exInp : ParsingInput := { regex := [], json := exTree }
 example : columnValue { parseF64 := fun _ => none } exCol exInp = .int 10 := by rfl
 example : columnValue { parseF64 := fun _ => none } exCol { regex := [], json := .null } = .int 7 := by rfl
 example : followPath pathAB0.steps exInp.json = some (.num (.posInt 10 0x4024000000000000)) := by rfl
+
+
+/-- from bytes: the line `{"a":{"b":[10,"x"]},"a":{"b":[7]}}` — a repeated key keeps the last value -/
+def exLine : List Nat := "{\"a\":{\"b\":[10,\"x\"]}, \"a\" : {\"b\":[7, 1.5, -0, 1e400]}}".toUTF8.toList.map (·.toNat)
+def exLine2 : List Nat := " {\"a\":{\"b\":[10,1.5,-0,18446744073709551616]}}\n".toUTF8.toList.map (·.toNat)
+example : JsonDoc.docOfLine exLine = none := by decide +kernel                      -- `1e400` is out of range: not a document
+example : ((JsonDoc.docOfLine exLine2).bind (followPath pathAB0.steps)).bind Json.asI64 = some 10 := by decide +kernel
+example : ((JsonDoc.docOfLine exLine2).bind (followPath pathAB0.steps)).bind Json.asF64 = some 0x4024000000000000 := by decide +kernel
+example : ((JsonDoc.docOfLine exLine2).bind (followPath [.field [97], .field [98], .index 2])).bind Json.asI64 = none := by decide +kernel   -- `-0` is the float -0.0
+example : ((JsonDoc.docOfLine exLine2).bind (followPath [.field [97], .field [98], .index 2])).bind Json.asF64 = some 0x8000000000000000 := by decide +kernel
+example : ((JsonDoc.docOfLine exLine2).bind (followPath [.field [97], .field [98], .index 3])).bind Json.asF64 = some 0x43f0000000000000 := by decide +kernel   -- above `u64::MAX`: a float
+example : JsonDoc.docOfLine [0x7b, 0xff, 0x7d] = none := by decide +kernel           -- not UTF-8
 
 end Sqlgrep.Props.C02
